@@ -229,7 +229,7 @@ def compare(exp, obs):
     return fails
 
 
-def check_dex(ctx, data, exp):
+def check_dex(ctx, data, exp, force_history=False):
     from androguard.core import dex
     case = {'dex': data, 'exp': exp}
     try:
@@ -242,8 +242,24 @@ def check_dex(ctx, data, exp):
     except Exception:
         ctx.fail('exception:observe', case, traceback.format_exc())
         return
-    for bucket, msg in compare(exp, obs):
+    fails = compare(exp, obs)
+    for bucket, msg in fails:
         ctx.fail(bucket, case, msg)
+    if fails or ((len(data) + data[8]) % 3 and not force_history):
+        return
+    # history: the reported tables must not change when the same DEX object is analysed (Analysis consumes
+    # determineException's result) and queried again -- twice, so that state accumulated by a first pass shows.
+    try:
+        from androguard.core.analysis import analysis
+        for rnd in (1, 2):
+            analysis.Analysis(d)
+            obs2 = observe(d)
+            for bucket, msg in compare(exp, obs2):
+                ctx.fail('after-analysis:' + bucket, dict(case, after_analysis=rnd), 'after %d Analysis(d) pass(es): %s' % (rnd, msg))
+                return
+        ctx.count('requeried_after_analysis')
+    except Exception:
+        ctx.fail('exception:after-analysis', case, traceback.format_exc())
 
 
 def check_spec(ctx, spec):
@@ -370,4 +386,4 @@ def run_shard(ctx, shard):
 
 
 def replay(ctx, case):
-    check_dex(ctx, case['dex'], case['exp'])
+    check_dex(ctx, case['dex'], case['exp'], force_history='after_analysis' in case)
